@@ -23,6 +23,27 @@ ORACLES = [oracles.BoxOracle]
 valid = None
 
 def _gen_plan(seed, tier):
+    r6 = _sub_rng5(seed, 'plan.c02.restart')
+    if r6.random() < 0.07:
+        # a restart file is registered; the ranges are narrowed between two iterations; the process dies and a new one resumes from the
+        # file as it stands.  Whatever moment the file is a snapshot of, the restored solver keeps to the ranges it says it has
+        plan = solverplan.gen_solver_plan(seed, tier, ID, dict(KNOBS, p_bounds=1.0, p_exotic_box=0.0, p_constraint=0.0, p_hostile=0.0, p_illegal=0.0,
+                                                                p_reject=0.0, p_midrun_set=0.0, p_solve=0.0, p_term=0.2, p_limits=0.0, max_ops=1))
+        ops = [o for o in plan['ops'] if o['op'] == 'set']
+        b0 = next((o for o in ops if o['what'] == 'bounds' and o.get('arg')), None)
+        if b0 is not None and all(abs(v) < 1e6 for v in b0['arg']['lo'] + b0['arg']['hi']):
+            lo, hi = b0['arg']['lo'], b0['arg']['hi']
+            nlo = []; nhi = []
+            for a, c in zip(lo, hi):
+                w = c - a
+                nlo.append(a + r6.choice([0.0, 0.1, 0.25, 0.4]) * w); nhi.append(c - r6.choice([0.0, 0.1, 0.25, 0.4]) * w)
+            ops.append({'op': 'set', 'what': 'save', 'arg': {'every': r6.choice([1, 1, 2]), 'file': 'restart.pkl'}})
+            ops.append({'op': 'step', 'n': r6.randint(1, 4)})
+            ops.append({'op': 'set', 'what': 'bounds', 'arg': dict(b0['arg'], lo=nlo, hi=nhi)})
+            ops.append({'op': 'loadstate'})
+            ops.append({'op': 'step', 'n': r6.randint(1, 4)})
+            plan['ops'] = ops
+            return plan
     plan = solverplan.gen_solver_plan(seed, tier, ID, KNOBS)
     # a hostile constraint makes mystic's and_(constraints, bounds) loop up to 100x per cost call: keep
     # run-to-default-limits Solves out of those plans (cost, not a hang) by bounding the generations
